@@ -152,6 +152,19 @@ Definition perr_offset (e : perr) : Z :=
    | None => 1
    end) - 1.
 
+(* restructuredtext._EpydocReader.report (the observer attached to docutils' reporter):
+        linenum: Optional[int] = error.get('line')          # docutils: 1-based line of the block
+        msg = ''.join(c.astext() for c in error)
+        self._errors.append(ParseError(msg, linenum, is_fatal))
+   The 1-based docutils line is stored where ParseError documents a 0-based one. *)
+Definition rst_reader_perr (msg : text) (docutils_line : option Z) : perr :=
+  {| pe_descr := msg; pe_stored := docutils_line |}.
+
+(* epytext: StructuringError / ColorizingError (descr, token.startline) -- startline is the 0-based index of the
+   first line of the paragraph / list item / field / heading token in the cleaned docstring *)
+Definition epytext_perr (msg : text) (token_startline : Z) : perr :=
+  {| pe_descr := msg; pe_stored := Some token_startline |}.
+
 Definition bad_prefix (section : text) : text := [98;97;100;32]%N ++ section ++ [58;32]%N.   (* 'bad <section>: ' *)
 
 Definition report_errors (verbosity : Z) (st : sys_state) (pe : parse_errors) (o : obj)
@@ -202,7 +215,7 @@ Definition one_run (verbosity : Z) (wae : bool) (header : text) (o : obj) (ps : 
 
 (* ---- wire ---------------------------------------------------------------------------------------
    input := ( op args... )
-     0 is_end node_lineno doc                  -> ( lineno cleandoc leading_ws_fit has_content )
+     0 is_end node_lineno doc                  -> ( lineno cleandoc leading_ws_fit has_content overshoot )
      1 doc                                     -> ( cleandoc expandtabs )
      2 lo hi                                   -> ( code points c, lo <= c < hi, with isspace c )
      3 verbosity section ds ln off is_module description descr thresh
@@ -214,6 +227,7 @@ Definition one_run (verbosity : Z) (wae : bool) (header : text) (o : obj) (ps : 
                                                -> ( violations ( printed ... ) ( names of parse_errors[section] ) )
      6 verbosity wae header violations ( (section (name ...)) ... )
                                                -> ( code violations number-of-printed-lines )
+     8 docutils-line-opt                       -> ( stored-opt offset )      (rst_reader_perr)
      7 verbosity wae header description fullname is_module linenumber has_doc node_lineno doc ( problem ... )
             problem := ( 0 descr stored-opt ) | ( 1 message field_lineno ) | ( 2 message lineno )
                                                -> ( docstring_lineno cleandoc code violations ( printed ... ) )   *)
@@ -249,7 +263,7 @@ Definition run (s : sexp) : sexp :=
   | 0 =>
     let doc := to_text (nth_s 3 s) in
     let '(ln, d) := extract_docstring (to_bool (nth_s 1 s)) (to_Z (nth_s 2 s)) doc in
-    L [A ln; of_text d; of_bool (leading_ws_fit doc); of_bool (has_content doc)]
+    L [A ln; of_text d; of_bool (leading_ws_fit doc); of_bool (has_content doc); of_nat (top_dropped doc - top_kept doc)]
   | 1 => L [of_text (cleandoc (to_text (nth_s 1 s))); of_text (expandtabs (to_text (nth_s 1 s)))]
   | 2 => of_list of_N (spaces_in (to_N (nth_s 1 s)) (N.to_nat (to_N (nth_s 2 s) - to_N (nth_s 1 s))))
   | 3 =>
@@ -280,5 +294,8 @@ Definition run (s : sexp) : sexp :=
     let '(code, st) := one_run (to_Z (nth_s 1 s)) (to_bool (nth_s 2 s)) (to_text (nth_s 3 s)) o
                                (map problem_of_sexp (to_list (nth_s 11 s))) in
     L ([A (o_docstring_lineno o); of_text d; A code] ++ state_sexp st)
+  | 8 =>
+    let e := rst_reader_perr [] (to_optZ (nth_s 1 s)) in
+    L [of_option A (pe_stored e); A (perr_offset e)]
   | _ => bad_input
   end.
